@@ -5,6 +5,7 @@ package main
 import (
 	"fmt"
 	"go/ast"
+	"go/constant"
 	"go/token"
 	"go/types"
 	"sort"
@@ -204,6 +205,9 @@ type handlerInfo struct {
 	Captures []captureEvent
 	AddsErr  *bexpr // guard under which ctx.AddErrors is called (or-ed), nil if never
 	Opaque   bool   // contains constructs the extractor could not model on a push/pop path
+	// field paths of the receiver the handler unconditionally sets to a non-nil value (`s.Clause.Match = NewMatch(…)`):
+	// what the handlers of the rules below, run by the same visitor, may rely on
+	Establishes []string
 }
 
 type VisitorType struct {
@@ -215,16 +219,17 @@ type VisitorType struct {
 }
 
 type VisitorModel struct {
-	pkg        *packages.Package
-	run        *Run
-	Types      map[string]*VisitorType
-	BaseKind   map[string]string // "Enter:oC_X" -> "unsupported"|"empty"|"other"
-	ctxEnter   *types.Func
-	ctxExit    *types.Func
-	ctxAddErrs *types.Func
-	decls      map[*types.Func]*ast.FuncDecl
-	Root       string
-	tokenConst map[string]string // const name CypherLexerX / CypherParserX -> X
+	pkg            *packages.Package
+	run            *Run
+	Types          map[string]*VisitorType
+	BaseKind       map[string]string // "Enter:oC_X" -> "unsupported"|"empty"|"other"
+	ctxEnter       *types.Func
+	ctxExit        *types.Func
+	ctxAddErrs     *types.Func
+	decls          map[*types.Func]*ast.FuncDecl
+	Root           string
+	tokenConst     map[string]string // const name CypherLexerX / CypherParserX -> X
+	errHelperDepth int
 }
 
 func ruleOfMethod(name string) (kind, rule string, ok bool) {
@@ -394,6 +399,95 @@ func (vm *VisitorModel) nonNilError(e ast.Expr) bool {
 			if full == "fmt.Errorf" || full == "errors.New" {
 				return true
 			}
+			// a helper of the package that builds the error: every return hands back a non-nil error, except returns of nil
+			// under a condition that cannot hold for a rule context the walker delivers (see antlrAxiomFalse)
+			if fd := vm.decls[fn]; fd != nil && fd.Body != nil && fn.Pkg() == vm.pkg.Types && vm.errHelperDepth < 2 {
+				vm.errHelperDepth++
+				defer func() { vm.errHelperDepth-- }()
+				all, n := true, 0
+				ast.Inspect(fd.Body, func(m ast.Node) bool {
+					if _, isLit := m.(*ast.FuncLit); isLit {
+						return false
+					}
+					ret, ok := m.(*ast.ReturnStmt)
+					if !ok {
+						return true
+					}
+					n++
+					if len(ret.Results) != 1 {
+						all = false
+						return true
+					}
+					if vm.nonNilError(ret.Results[0]) {
+						return true
+					}
+					dead := false
+					for _, lit := range controlConds(fd.Body, ret) {
+						if !lit.Neg && vm.antlrAxiomFalse(fd, lit.Expr) {
+							dead = true
+						}
+					}
+					if !dead {
+						all = false
+					}
+					return true
+				})
+				return all && n > 0
+			}
+		}
+	}
+	return false
+}
+
+// antlrAxiomFalse: conditions that cannot hold for a rule context the tree walker hands to a listener after a parse
+// without syntax errors (with syntax errors the query is rejected anyway). The ANTLR runtime sets a rule's start token
+// when the rule is entered (never nil), and every token taken from the token stream has an index ≥ 0; only tokens that
+// error recovery conjures up carry the index -1. These two facts about the runtime are assumptions of the analysis, not
+// something it derives.
+func (vm *VisitorModel) antlrAxiomFalse(fd *ast.FuncDecl, e ast.Expr) bool {
+	info := vm.pkg.TypesInfo
+	e = ast.Unparen(e)
+	be, ok := e.(*ast.BinaryExpr)
+	if !ok {
+		return false
+	}
+	switch be.Op {
+	case token.LOR:
+		return vm.antlrAxiomFalse(fd, be.X) && vm.antlrAxiomFalse(fd, be.Y)
+	case token.LAND:
+		return vm.antlrAxiomFalse(fd, be.X) || vm.antlrAxiomFalse(fd, be.Y)
+	}
+	isStartOfRule := func(x ast.Expr) bool {
+		x = ast.Unparen(x)
+		if id, isId := x.(*ast.Ident); isId {
+			x = ast.Unparen(resolveLocalCopy(info, fd.Body, id))
+		}
+		call, isCall := x.(*ast.CallExpr)
+		if !isCall || len(call.Args) != 0 {
+			return false
+		}
+		sel, isSel := ast.Unparen(call.Fun).(*ast.SelectorExpr)
+		return isSel && sel.Sel.Name == "GetStart" && vm.isRuleCtxType(info.TypeOf(sel.X))
+	}
+	switch be.Op {
+	case token.EQL:
+		if isNilIdent(info, ast.Unparen(be.Y)) && isStartOfRule(be.X) {
+			return true
+		}
+	}
+	// <start>.GetTokenIndex() < c (c ≤ 0), <= c or == c (c < 0)
+	if call, isCall := ast.Unparen(be.X).(*ast.CallExpr); isCall && len(call.Args) == 0 {
+		if sel, isSel := ast.Unparen(call.Fun).(*ast.SelectorExpr); isSel && sel.Sel.Name == "GetTokenIndex" && isStartOfRule(sel.X) {
+			if tv, has := info.Types[be.Y]; has && tv.Value != nil {
+				if c, exact := constantInt64(tv); exact {
+					switch be.Op {
+					case token.LSS:
+						return c <= 0
+					case token.LEQ, token.EQL:
+						return c < 0
+					}
+				}
+			}
 		}
 	}
 	return false
@@ -459,11 +553,33 @@ type hwalk struct {
 	via   string
 	// the object(s) standing for the rule context in the current frame
 	ctxObjs map[types.Object]bool
+	// element variables of `range <ctx>.All…()` loops
+	rangeElems map[types.Object]bool
+	// the receiver of the handler being walked (nil inside helpers)
+	recv types.Object
+	// `v, ok := f(ctx)`: which call and which result a local stands for
+	tupleDefs map[types.Object]tupleDef
+	// the returns met while walking, with the guard under which each is reached and the guard under which each boolean
+	// result is true
+	rets []retEvent
+}
+
+type tupleDef struct {
+	call *ast.CallExpr
+	idx  int
+}
+
+type retEvent struct {
+	g     *bexpr
+	conds []*bexpr // per result; nil for a result that is not boolean
 }
 
 func (vm *VisitorModel) analyseHandler(fd *ast.FuncDecl) *handlerInfo {
 	hi := &handlerInfo{Decl: fd}
 	w := &hwalk{vm: vm, hi: hi, defs: map[types.Object]ast.Expr{}, ctxObjs: map[types.Object]bool{}}
+	if fd.Recv != nil && len(fd.Recv.List) == 1 && len(fd.Recv.List[0].Names) == 1 {
+		w.recv = vm.pkg.TypesInfo.Defs[fd.Recv.List[0].Names[0]]
+	}
 	if fd.Type.Params != nil {
 		for _, p := range fd.Type.Params.List {
 			for _, n := range p.Names {
@@ -613,6 +729,25 @@ func (w *hwalk) stmt(st ast.Stmt, g *bexpr) *bexpr {
 		for _, l := range s.Lhs {
 			w.expr(l, g)
 		}
+		if len(s.Lhs) > 1 && len(s.Rhs) == 1 && s.Tok == token.DEFINE {
+			if call, isCall := ast.Unparen(s.Rhs[0]).(*ast.CallExpr); isCall {
+				for i, l := range s.Lhs {
+					if id, ok := l.(*ast.Ident); ok && info.Defs[id] != nil {
+						if w.tupleDefs == nil {
+							w.tupleDefs = map[types.Object]tupleDef{}
+						}
+						w.tupleDefs[info.Defs[id]] = tupleDef{call, i}
+					}
+				}
+			}
+		}
+		if len(s.Lhs) == len(s.Rhs) && g.Op == "true" && w.recv != nil {
+			for i, l := range s.Lhs {
+				if p := w.recvPath(l); p != "" && w.vm.freshPointer(s.Rhs[i], 0) {
+					w.hi.Establishes = append(w.hi.Establishes, p)
+				}
+			}
+		}
 		if len(s.Lhs) == len(s.Rhs) {
 			for i, l := range s.Lhs {
 				if id, ok := l.(*ast.Ident); ok {
@@ -660,9 +795,25 @@ func (w *hwalk) stmt(st ast.Stmt, g *bexpr) *bexpr {
 		}
 		return bOr(thenOut, elseOut)
 	case *ast.ReturnStmt:
+		ev := retEvent{g: g}
 		for _, r := range s.Results {
 			w.expr(r, g)
+			var c *bexpr
+			if tv, has := info.Types[r]; has {
+				if b, isBasic := tv.Type.Underlying().(*types.Basic); isBasic && b.Info()&types.IsBoolean != 0 {
+					switch {
+					case tv.Value != nil && constant.BoolVal(tv.Value):
+						c = bTrue
+					case tv.Value != nil:
+						c = bFalse
+					default:
+						c = w.cond(r)
+					}
+				}
+			}
+			ev.conds = append(ev.conds, c)
 		}
+		w.rets = append(w.rets, ev)
 		return bFalse
 	case *ast.SwitchStmt:
 		g0 := w.stmt(s.Init, g)
@@ -724,6 +875,16 @@ func (w *hwalk) stmt(st ast.Stmt, g *bexpr) *bexpr {
 		return g0
 	case *ast.RangeStmt:
 		w.expr(s.X, g)
+		if name, _, ok := w.ctxAccessor(w.resolve(ast.Unparen(s.X))); ok && strings.HasPrefix(name, "All") {
+			if id, isId := s.Value.(*ast.Ident); isId && s.Value != nil {
+				if obj := info.Defs[id]; obj != nil {
+					if w.rangeElems == nil {
+						w.rangeElems = map[types.Object]bool{}
+					}
+					w.rangeElems[obj] = true
+				}
+			}
+		}
 		a := bAtom(fmt.Sprintf("opaque:loop@%d", w.vm.pkg.Fset.Position(s.Pos()).Line))
 		before := len(w.hi.Events)
 		w.stmts(s.Body.List, bAnd(g, a))
@@ -1034,6 +1195,13 @@ func (w *hwalk) cond(e ast.Expr) *bexpr {
 				l, r = r, l
 			}
 			if isNilIdent(info, r) {
+				if p := w.recvPath(l); p != "" {
+					a := bAtom("state:nonnil(" + p + ")")
+					if x.Op == token.EQL {
+						return bNot(a)
+					}
+					return a
+				}
 				l = w.resolve(l)
 				if name, args, ok := w.ctxAccessor(l); ok {
 					var a *bexpr
@@ -1059,6 +1227,12 @@ func (w *hwalk) cond(e ast.Expr) *bexpr {
 				return a
 			}
 		}
+	case *ast.Ident:
+		if td, has := w.tupleDefs[info.Uses[x]]; has {
+			if b := w.boolResult(td.call, td.idx); b != nil {
+				return b
+			}
+		}
 	case *ast.CallExpr:
 		fn := calleeOf(info, x)
 		if a := w.scanAtom(x); a != "" {
@@ -1069,7 +1243,7 @@ func (w *hwalk) cond(e ast.Expr) *bexpr {
 			for _, a := range x.Args[1:] {
 				tn := w.tokenName(a)
 				if tn == "" {
-					return bAtom("opaque:" + exprString(w.vm.pkg.Fset, e))
+					return w.opaqueAtom(e)
 				}
 				out = bAnd(out, bAtom("present("+tokSym(tn)+")"))
 			}
@@ -1085,7 +1259,7 @@ func (w *hwalk) cond(e ast.Expr) *bexpr {
 			}
 		}
 	}
-	return bAtom("opaque:" + exprString(w.vm.pkg.Fset, e))
+	return w.opaqueAtom(e)
 }
 
 func tokSym(tn string) string {
@@ -1133,6 +1307,21 @@ func (w *hwalk) lenCompare(x *ast.BinaryExpr) (*bexpr, bool) {
 		return nil, false
 	}
 	arg := w.resolve(call.Args[0])
+	if tc, isCall := arg.(*ast.CallExpr); isCall {
+		// len(<child>.GetText()) with the child obtained from the rule context: the text of a rule that cannot derive the
+		// empty string is empty only when the child is absent
+		if sel, isSel := ast.Unparen(tc.Fun).(*ast.SelectorExpr); isSel && sel.Sel.Name == "GetText" && len(tc.Args) == 0 {
+			if name, _, ok := w.ctxAccessor(w.resolve(ast.Unparen(sel.X))); ok && strings.HasPrefix(name, "OC_") {
+				a := bAtom("nonemptytext(" + symOfAccessor(name) + ")")
+				switch {
+				case bl.Value == "0" && (op == token.GTR || op == token.NEQ), bl.Value == "1" && op == token.GEQ:
+					return a, true
+				case bl.Value == "0" && (op == token.EQL || op == token.LEQ), bl.Value == "1" && op == token.LSS:
+					return bNot(a), true
+				}
+			}
+		}
+	}
 	name, _, ok := w.ctxAccessor(arg)
 	if !ok || !strings.HasPrefix(name, "All") {
 		return nil, false
@@ -1180,6 +1369,18 @@ func (w *hwalk) capture(call *ast.CallExpr, fn *types.Func, g *bexpr) {
 			w.hi.Captures = append(w.hi.Captures, captureEvent{Kind: k + sym, Guard: g, Pos: call.Pos()})
 		}
 		return
+	}
+	// <child>.GetText() where the child is a rule context obtained from the handler's own context (an accessor result, an
+	// element of an All…() list): the handler consumes the whole text of that child rule
+	if sel, ok := ast.Unparen(call.Fun).(*ast.SelectorExpr); ok && sel.Sel.Name == "GetText" && len(call.Args) == 0 {
+		if t := w.vm.pkg.TypesInfo.TypeOf(sel.X); t != nil {
+			if n := namedOf(t); n != nil && n.Obj().Pkg() != nil && strings.HasSuffix(n.Obj().Pkg().Path(), "cypher/parser") {
+				name := strings.TrimPrefix(n.Obj().Name(), "I")
+				if strings.HasPrefix(name, "OC_") && strings.HasSuffix(name, "Context") && w.derivedFromCtx(sel.X) {
+					w.hi.Captures = append(w.hi.Captures, captureEvent{Kind: "childtext:oC_" + strings.TrimSuffix(name[3:], "Context"), Guard: bTrue, Pos: call.Pos()})
+				}
+			}
+		}
 	}
 	if fn != nil && fn.Pkg() == w.vm.pkg.Types {
 		switch fn.Name() {
@@ -1272,3 +1473,232 @@ func sortedPairs(m map[string]*activePair) []*activePair {
 }
 
 func sortStrings(s []string) []string { sort.Strings(s); return s }
+
+// derivedFromCtx: the expression is an accessor call on the handler's rule context, or a local bound to one (directly, or
+// as the element variable of a range over an All…() accessor).
+func (w *hwalk) derivedFromCtx(e ast.Expr) bool {
+	e = w.resolve(ast.Unparen(e))
+	if _, _, ok := w.ctxAccessor(e); ok {
+		return true
+	}
+	if id, ok := e.(*ast.Ident); ok {
+		return w.rangeElems[w.vm.pkg.TypesInfo.Uses[id]]
+	}
+	return false
+}
+
+// recvPath: `s.A.B` with s the receiver of the handler being walked → "A.B".
+func (w *hwalk) recvPath(e ast.Expr) string {
+	if w.recv == nil {
+		return ""
+	}
+	var parts []string
+	e = ast.Unparen(e)
+	for {
+		sel, ok := e.(*ast.SelectorExpr)
+		if !ok {
+			break
+		}
+		if s := w.vm.pkg.TypesInfo.Selections[sel]; s == nil || s.Kind() != types.FieldVal {
+			return ""
+		}
+		parts = append([]string{sel.Sel.Name}, parts...)
+		e = ast.Unparen(sel.X)
+	}
+	id, ok := e.(*ast.Ident)
+	if !ok || len(parts) == 0 || w.vm.pkg.TypesInfo.Uses[id] != w.recv {
+		return ""
+	}
+	return strings.Join(parts, ".")
+}
+
+// freshPointer: the expression is never nil — the address of a composite literal, new(T), or a call of a function of
+// the module all of whose returns are such.
+func (vm *VisitorModel) freshPointer(e ast.Expr, depth int) bool {
+	e = ast.Unparen(e)
+	switch x := e.(type) {
+	case *ast.UnaryExpr:
+		if x.Op == token.AND {
+			_, isLit := ast.Unparen(x.X).(*ast.CompositeLit)
+			return isLit
+		}
+	case *ast.CallExpr:
+		if id, ok := x.Fun.(*ast.Ident); ok && id.Name == "new" {
+			return true
+		}
+		if depth > 2 {
+			return false
+		}
+		for _, p := range vm.run.Pkgs {
+			fn := calleeOf(p.TypesInfo, x)
+			if fn == nil {
+				continue
+			}
+			for _, q := range vm.run.Pkgs {
+				if q.Types != fn.Pkg() {
+					continue
+				}
+				fd := FuncDecls(q)[declKeyOf(fn)]
+				if fd == nil || fd.Body == nil {
+					return false
+				}
+				sub := &VisitorModel{pkg: q, run: vm.run}
+				all, n := true, 0
+				ast.Inspect(fd.Body, func(m ast.Node) bool {
+					if _, isLit := m.(*ast.FuncLit); isLit {
+						return false
+					}
+					if ret, ok := m.(*ast.ReturnStmt); ok {
+						n++
+						if len(ret.Results) != 1 || !sub.freshPointer(ret.Results[0], depth+1) {
+							all = false
+						}
+					}
+					return true
+				})
+				return all && n > 0
+			}
+			return false
+		}
+	}
+	return false
+}
+
+// withFacts: the guard with the state atoms in facts taken as true.
+func (b *bexpr) withFacts(facts map[string]bool) *bexpr {
+	if len(facts) == 0 || b == nil {
+		return b
+	}
+	switch b.Op {
+	case "atom":
+		if strings.HasPrefix(b.Atom, "state:nonnil(") && facts[b.Atom[len("state:nonnil("):len(b.Atom)-1]] {
+			return bTrue
+		}
+		return b
+	case "not":
+		return bNot(b.Kids[0].withFacts(facts))
+	case "and":
+		return bAnd(b.Kids[0].withFacts(facts), b.Kids[1].withFacts(facts))
+	case "or":
+		return bOr(b.Kids[0].withFacts(facts), b.Kids[1].withFacts(facts))
+	}
+	return b
+}
+
+func (h *handlerInfo) withFacts(facts map[string]bool) *handlerInfo {
+	if h == nil || len(facts) == 0 {
+		return h
+	}
+	c := *h
+	c.Events = nil
+	for _, e := range h.Events {
+		e.Guard = e.Guard.withFacts(facts)
+		c.Events = append(c.Events, e)
+	}
+	c.Captures = nil
+	for _, e := range h.Captures {
+		e.Guard = e.Guard.withFacts(facts)
+		c.Captures = append(c.Captures, e)
+	}
+	return &c
+}
+
+// boolResult: the guard under which result idx of a call of a same-package helper that is handed the rule context is true,
+// as a formula over the presence atoms of that context: the disjunction, over the helper's returns, of the guard of the
+// return and the truth of the result there. nil when the helper cannot be followed.
+func (w *hwalk) boolResult(call *ast.CallExpr, idx int) *bexpr {
+	info := w.vm.pkg.TypesInfo
+	fn := calleeOf(info, call)
+	if fn == nil || fn.Pkg() != w.vm.pkg.Types || w.depth >= 3 {
+		return nil
+	}
+	fd := w.vm.decls[fn]
+	if fd == nil || fd.Body == nil || fd.Type.Results == nil {
+		return nil
+	}
+	for _, rl := range fd.Type.Results.List {
+		if len(rl.Names) > 0 {
+			return nil // named results: a bare return is not followed
+		}
+	}
+	sub := &hwalk{vm: w.vm, hi: &handlerInfo{Decl: fd}, defs: map[types.Object]ast.Expr{}, depth: w.depth + 1, via: fn.Name(), ctxObjs: map[types.Object]bool{}}
+	i := 0
+	if fd.Type.Params != nil {
+		for _, p := range fd.Type.Params.List {
+			for _, n := range p.Names {
+				if i < len(call.Args) && w.isCtxExpr(call.Args[i]) {
+					if obj := info.Defs[n]; obj != nil {
+						sub.ctxObjs[obj] = true
+					}
+				}
+				i++
+			}
+		}
+	}
+	if len(sub.ctxObjs) == 0 {
+		return nil
+	}
+	sub.stmts(fd.Body.List, bTrue)
+	out := bFalse
+	for _, ev := range sub.rets {
+		if idx >= len(ev.conds) || ev.conds[idx] == nil {
+			return nil
+		}
+		out = bOr(out, bAnd(ev.g, ev.conds[idx]))
+	}
+	return out
+}
+
+// onDeriv: the guard with every atom that a grammar derivation decides replaced by its value there. nonNullable tells
+// whether a rule can derive the empty string.
+func (b *bexpr) onDeriv(d []string, nonNullable func(rule string) bool) *bexpr {
+	if b == nil {
+		return nil
+	}
+	switch b.Op {
+	case "atom":
+		if strings.HasPrefix(b.Atom, "nonemptytext(R:") {
+			rule := b.Atom[len("nonemptytext(R:") : len(b.Atom)-1]
+			if nonNullable(rule) {
+				return bAtom("present(R:"+rule+")").onDeriv(d, nonNullable)
+			}
+			return b
+		}
+		switch atomOnDeriv(b.Atom, d) {
+		case 1:
+			return bTrue
+		case 0:
+			return bFalse
+		}
+		return b
+	case "not":
+		return bNot(b.Kids[0].onDeriv(d, nonNullable))
+	case "and":
+		return bAnd(b.Kids[0].onDeriv(d, nonNullable), b.Kids[1].onDeriv(d, nonNullable))
+	case "or":
+		return bOr(b.Kids[0].onDeriv(d, nonNullable), b.Kids[1].onDeriv(d, nonNullable))
+	}
+	return b
+}
+
+// opaqueAtom: a condition the extractor does not interpret, keyed by its text; two locals of the same name declared in
+// different places are different atoms.
+func (w *hwalk) opaqueAtom(e ast.Expr) *bexpr {
+	info := w.vm.pkg.TypesInfo
+	key := "opaque:" + exprString(w.vm.pkg.Fset, e)
+	seen := map[types.Object]bool{}
+	var marks []string
+	ast.Inspect(e, func(n ast.Node) bool {
+		if id, ok := n.(*ast.Ident); ok {
+			if v, ok := info.Uses[id].(*types.Var); ok && !v.IsField() && v.Parent() != nil && v.Parent() != v.Pkg().Scope() && !seen[v] && v != w.recv && !w.ctxObjs[v] {
+				seen[v] = true
+				marks = append(marks, v.Name()+"@"+itoa(w.vm.pkg.Fset.Position(v.Pos()).Line))
+			}
+		}
+		return true
+	})
+	if len(marks) > 0 {
+		key += " [" + strings.Join(marks, " ") + "]"
+	}
+	return bAtom(key)
+}
